@@ -152,6 +152,9 @@ type Step struct {
 	Describe  string  `json:"describe,omitempty"` // "", "S", "P"
 	MixedFmt  bool    `json:"mixed_fmt,omitempty"` // per-parameter format codes instead of one for all
 	LitEvery  int     `json:"lit_every,omitempty"` // extended protocol: every n-th value is an inline literal instead of a placeholder
+	// Reexec > 0: op "reexec" binds and executes again the statement prepared by step Reexec-1 (an earlier
+	// extended-protocol SELECT), without a new Parse
+	Reexec int `json:"reexec,omitempty"`
 }
 
 // GenStep draws a statement over the tables; nextID provides unique ids per table.
